@@ -11,7 +11,7 @@ import random
 from ..rt import scen
 from .rtcommon import HOWS, RT_ASSUMPTIONS, make_replay
 
-NAMES = ["AtMostOnce", "AdoptReturnsNone", "ExactlyOnceObserved", "RightFlavour", "ArgsExact"]
+NAMES = ["AtMostOnce", "AdoptReturnsNone", "AdoptReturnsObserved", "ExactlyOnceObserved", "RightFlavour", "ArgsExact"]
 replay = make_replay(NAMES)
 ARGS = [([], {}), ([1, "two"], {}), ([], {"k": [1, 2]}), ([None, 0], {"a": "", "b": 2.5})]
 
@@ -70,6 +70,13 @@ def run(ctx):
         wa = False  # racing accept() itself is the start-up window (DESIGN 7.4), not claimed
         extra.append({"seed": ctx.seed + k, "jitter": 0.0, "switchinterval": 1e-6, "payloads": {"q1": {"flavour": fl}, "q2": {"flavour": fl}, "q3": {"flavour": "trio" if wa else fl}},
                       "script": [{"op": "race_adopts", "ps": ["q1", "q2", "q3"], "with_accept": wa}] + ([] if wa else [{"op": "accept"}]) + [{"op": "wait_running"}, {"op": "polls", "n": 3}], "shape": "targeted-prestart-race"})
+    # adopt() of a trio payload from inside an asyncio payload while a trio payload is inside a
+    # blocking execute() into asyncio: adopt must return without waiting (forced by parking the
+    # adopter right before it hands the payload to the trio thread)
+    extra.append({"seed": ctx.seed, "jitter": 0.0, "timeout": 8, "payloads": {"a1": {"flavour": "asyncio"}, "t1": {"flavour": "trio"}, "x1p": {"flavour": "asyncio"}, "late": {"flavour": "trio"}},
+                  "script": [{"op": "adopt", "p": "a1"}, {"op": "adopt", "p": "t1"}, {"op": "accept"}, {"op": "wait_running"}, {"op": "wait_start", "p": "a1"}, {"op": "wait_start", "p": "t1"},
+                             {"op": "park", "point": "t.reg.call"}, {"op": "adopt", "p": "late", "ctx": "payload:a1"}, {"op": "wait_park", "point": "t.reg.call"}, {"op": "execute", "p": "x1p", "ctx": "payload:t1", "how": "val:x"},
+                             {"op": "release", "point": "t.reg.call"}, {"op": "step", "p": "a1"}, {"op": "step", "p": "t1"}], "shape": "targeted-adopt-vs-execute"})
     first = True
     for allow, ss in groups.items():
         scen.run_family(ctx, ss, names=NAMES, allow=allow, mc_invariants=["AtMostOnce", "AdoptReturnsNone", "DiscardOnlyWhenShuttingDown"], mc_properties=["ExactlyOnceLive"], per_shape=14 if thorough else 4, depth=40, label="c03" + "".join(a[:2] for a in allow), extra_scenarios=(extra if first else ()))
